@@ -210,7 +210,6 @@ def r2(k: Kit) -> None:
     sn = k.func(CONN + 'send_newkeys')
     g = k.cfg(sn)
     flush = [n for n, c in k.calls_named(sn, '_send_deferred_packets', 'self')]
-    rep.floor('C11.R2', 'flush sites in send_newkeys', len(flush), 1)
     pre = {
         'NEWKEYS sent': [n.id for n, c in k.calls_named(sn, 'send_packet',
                                                         'self')
@@ -626,6 +625,89 @@ def r11(k: Kit) -> None:
             'current fields', k.loc(fi, r))
 
 
+def r12(k: Kit) -> None:
+    """Whoever ends a deferral flushes the queue in the same step."""
+    rep = k.rep
+    rep.rule('C11.R12', 'every function of the connection that ends a '
+             'condition send_packet defers on (_kex_complete = True, '
+             '_auth_complete = True, _auth_in_progress = True) calls '
+             '_send_deferred_packets() before it returns: from that store '
+             'on new packets go straight to the wire, so packets still in '
+             'the queue would be overtaken by them')
+    n = 0
+    for fi in k.idx.iter_funcs(['connection']):
+        if fi.name == '__init__':
+            continue
+        g = k.cfg(fi)
+        ends = []
+        for fld in ('self._kex_complete', 'self._auth_complete',
+                    'self._auth_in_progress'):
+            ends += [(fld, nd) for nd, v in k.stores_to(fi, fld)
+                     if isinstance(v, ast.Constant) and v.value is True]
+        if not ends:
+            continue
+        fl = [nd.id for nd, c in k.calls_named(fi, '_send_deferred_packets',
+                                               'self')]
+        for fld, nd in ends:
+            if fld == 'self._auth_in_progress' and g.guarded_by(
+                    nd.id, lambda x: False if x.kind == 'atom' and is_call(
+                        x.ast, 'is_server', 'self') else None) is None:
+                # client only: the one packet type this flag gates
+                # (USERAUTH_BANNER) is sent by servers
+                continue
+            n += 1
+            w = None
+            for b, lab in g.succ[nd.id]:
+                if lab == 'exc':
+                    continue
+                w = w or ([b] if b == g.exit else (
+                    None if b in fl else
+                    g.path(b, g.exit, blocked_nodes=fl, follow_exc=False)))
+            rep.check(w is None, 'C11.R12',
+                      key(fi, f'flush after {fld[5:]} = True'),
+                      '_send_deferred_packets() on every path to the return',
+                      f'{fi.name} sets {fld[5:]} and returns without '
+                      'flushing the deferred queue: data written right '
+                      'after our NEWKEYS (or after authentication) goes out '
+                      'ahead of the packets that were held back, which '
+                      'follow only when some later event flushes them - '
+                      'the peer sees channel data out of order',
+                      k.loc(fi, nd), g.describe_path(w) if w else None)
+    rep.floor('C11.R12', 'stores that end a deferral', n, 4)
+
+
+def r13(k: Kit) -> None:
+    """A clean disconnect does not overtake data held back by a re-key."""
+    rep = k.rep
+    rep.rule('C11.R13', 'SSHConnection.disconnect (close()): before '
+             'DISCONNECT is sent the deferred queue / the state of the key '
+             'exchange is consulted - DISCONNECT is a transport message '
+             'and is never deferred, so without that it overtakes channel '
+             'data parked in _deferred_packets during a re-exchange and '
+             '_force_close() throws that data away (necessary condition '
+             'only: the rule does not decide how the flush is ordered)')
+    fi = k.func(CONN + 'disconnect')
+    g = k.cfg(fi)
+    sends = [nd for nd, c in k.calls_named(fi, '_send_disconnect', 'self')]
+    rep.floor('C11.R13', 'DISCONNECT sends in disconnect()', len(sends), 1)
+    looks = [n.id for n in g.nodes if n.ast is not None and any(
+        d in names_read(r_) for r_ in g.node_roots(n)
+        for d in ('self._deferred_packets', 'self._kex_complete',
+                  'self._kex'))]
+    looks += [nd.id for nd, c in k.calls_named(
+        fi, '_send_deferred_packets', 'self')]
+    for nd in sends:
+        w = g.path(g.entry, nd.id, blocked_nodes=looks)
+        rep.check(w is None, 'C11.R13',
+                  key(fi, 'disconnect waits for deferred data'),
+                  'deferred queue / kex state consulted before DISCONNECT',
+                  'disconnect() sends DISCONNECT without looking at the '
+                  'deferred queue: 40000 bytes written, then close() while '
+                  'a re-exchange is running - the server gets 10000; the '
+                  'same calls without a re-exchange deliver all 40000',
+                  k.loc(fi, nd))
+
+
 def run(idx, rep, tier):
     k = Kit(idx, rep)
     rep.assumptions += NOT_DECIDED
@@ -640,6 +722,8 @@ def run(idx, rep, tier):
     r8(k)
     r9(k)
     r11(k)
+    r12(k)
+    r13(k)
     # R5: the keys taken into use after a re-exchange are the RFC 4253 §7.2
     # keys: = C02.R2 (compute_key hashes K, H, letter, session id in that
     # order; on the first exchange H == session id hides a swap)
